@@ -9,6 +9,7 @@ import (
 	"golang.org/x/tools/go/ssa"
 
 	"verif/internal/core"
+	"verif/internal/tmpl"
 )
 
 // checkReservedUniverse: generated code refers to Go keywords and predeclared
@@ -114,4 +115,96 @@ func checkReservedUniverse(c *core.Ctx, l *core.Ledger) {
 		l.Check(len(callsIn(af, "IsReservedKeyword")) >= 1, "RESERVED-UNIVERSE", "allocator:"+a.fn, c.Rel(af.Pos()), "the allocator treats reserved names as taken", "the name allocator does not consult goast.IsReservedKeyword")
 	}
 	l.Floor("RESERVED-UNIVERSE", 35)
+}
+
+// checkNameAgree: a definition is referred to by the name it was declared
+// with — the naming function applied where the generator declares a constant,
+// an enum item or a type is the very function applied where another part of
+// the generated code refers to it.
+func checkNameAgree(c *core.Ctx, l *core.Ledger, mod *tmpl.Model) {
+	bindingIn := func(declName, fn string) *types.Func {
+		for _, t := range mod.ByDecl[declName] {
+			if b := t.Funcs[fn]; b != nil && b.Obj != nil {
+				return b.Obj
+			}
+		}
+		if b := mod.Global[fn]; b != nil {
+			return b.Obj
+		}
+		return nil
+	}
+	usesFunc := func(declName, fn string) bool {
+		for _, t := range mod.ByDecl[declName] {
+			if strings.Contains(t.Text, "<"+fn+" ") || strings.Contains(t.Text, " "+fn+" ") || strings.Contains(t.Text, "("+fn+" ") || strings.Contains(t.Text, "-"+fn+" ") || strings.Contains(t.Text, "- "+fn+" ") {
+				return true
+			}
+		}
+		return false
+	}
+	// the naming function a Go function applies to (an attribute of) its definition parameter
+	namingCalls := func(f *ssa.Function) []*types.Func {
+		var out []*types.Func
+		core.Instrs(f, func(in ssa.Instruction) {
+			call, ok := in.(*ssa.Call)
+			if !ok {
+				return
+			}
+			cal := call.Call.StaticCallee()
+			if cal == nil || core.PkgRel(cal) != "gen" || cal.Signature.Results().Len() == 0 {
+				return
+			}
+			if core.TypeLabel(cal.Signature.Results().At(0).Type()) != "string" {
+				return
+			}
+			for _, a := range call.Call.Args {
+				s := core.Sym(stripIface(a))
+				if s == "$1" || s == "$1.Name" {
+					if o, ok := cal.Object().(*types.Func); ok {
+						out = append(out, o)
+					}
+				}
+			}
+		})
+		return out
+	}
+	// constants
+	{
+		decl := bindingIn("Constant", "constantName")
+		ref := c.SSAFunc(c.LookupFunc("gen", "generator.LookupConstantName"))
+		switch {
+		case decl == nil || !usesFunc("Constant", "constantName"):
+			l.Unk("NAME-AGREE", "constant", "", "the constant declaration template does not name the constant through a bound function constantName")
+		case ref == nil:
+			l.Unk("NAME-AGREE", "constant", "", "generator.LookupConstantName not found")
+		default:
+			calls := namingCalls(ref)
+			ok := len(calls) == 1 && calls[0] == decl
+			got := "none"
+			if len(calls) > 0 {
+				got = calls[0].Name()
+			}
+			l.Check(ok, "NAME-AGREE", "constant", c.Rel(ref.Pos()), "references to a constant are named by the function that names its declaration ("+decl.Name()+")", "a constant is declared as "+decl.Name()+"(name) but referred to as "+got+"(name): for names on which the two differ the generated code does not build")
+		}
+	}
+	// types
+	{
+		ref := c.SSAFunc(c.LookupFunc("gen", "generator.LookupTypeName"))
+		gn := c.LookupFunc("gen", "goName")
+		if ref == nil || gn == nil {
+			l.Unk("NAME-AGREE", "type", "", "generator.LookupTypeName or goName not found")
+		} else {
+			calls := namingCalls(ref)
+			ok := len(calls) == 1 && calls[0] == gn
+			// and the declaration-side helper typeDeclName (if any) routes through goName as well
+			l.Check(ok, "NAME-AGREE", "type", c.Rel(ref.Pos()), "references to user-defined types are named by goName, the function the declarations and FIELD-NAME use", "type references are not named by goName")
+		}
+	}
+	// enum items: declaration template (enum) and reference template (enumItemReference) bind the same function
+	{
+		d := bindingIn("enum", "enumItemName")
+		r := bindingIn("enumItemReference", "enumItemName")
+		okUse := usesFunc("enum", "enumItemName") && usesFunc("enumItemReference", "enumItemName")
+		l.Check(d != nil && d == r && okUse, "NAME-AGREE", "enum-item", "", "enum items are declared and referred to through the same function enumItemName", "enum item declarations and references do not share one naming function")
+	}
+	l.Floor("NAME-AGREE", 3)
 }
